@@ -262,13 +262,13 @@ theorem format_injective (cp : List Char) (n m : Nat)
 /-- the test `do_request` applies to header names is "equal to x-request-id after lowering" -/
 theorem header_test_ok : Gen.C16.hdrTest = .lowerEq "x-request-id".toList := by decide
 
-/-- **caller-supplied id**: whatever the capitalisation of the header name, a request that brings
-its own id leaves the world (all counters) as it was, runs no instruction of the id program and keeps
-its headers unchanged — in particular the value that is sent. -/
-theorem caller_id (w : World) (c i : Nat) (im : Impl) (hs : Headers) (name v : List Char)
-    (hc : w.conns[c]? = some i) (hi : w.impls[i]? = some im)
+/-- **caller-supplied id** (the id branch of `do_request`): whatever the capitalisation of the header
+name, a dict that brings its own id leaves the world (all counters) as it was, runs no instruction of
+the id program and is itself unchanged — in particular the value that is sent. -/
+theorem caller_id (w : World) (c i : Nat) (cn : Conn) (im : Impl) (hs : Headers) (name v : List Char)
+    (hc : w.conns[c]? = some cn) (hci : cn.impl = i)
     (hmem : (name, v) ∈ hs) (hname : name.map lowerAscii = "x-request-id".toList) :
-    w.request Gen.C16.cfg c hs = .ok (w, hs) ∧
+    w.idBranch Gen.C16.cfg i im hs = .ok (w, hs) ∧
     needsId Gen.C16.cfg w i (c, hs) = some false := by
   have hany : hs.any (fun kv => Gen.C16.cfg.test.holds kv.1) = true := by
     apply List.any_eq_true.mpr
@@ -277,50 +277,57 @@ theorem caller_id (w : World) (c i : Nat) (im : Impl) (hs : Headers) (name v : L
     rw [header_test_ok]
     simp [HdrTest.holds, hname]
   constructor
-  · unfold World.request
-    simp only [hc, hi]
+  · unfold World.idBranch
     cases im.ctr with
     | none => rfl
     | some n => simp [hany]
   · unfold needsId
-    simp [hc, hany]
+    simp [hc, hci, hany]
 
-/-- a derived connection draws from the counter of the connection it wraps: a request through
-either of them is the same function of the world -/
-theorem derived_shares (g : Cfg) (w w' : World) (c c' : Nat) (hs : Headers)
-    (h : w.wrap c = .ok (w', c')) :
-    w'.request g c' hs = w'.request g c hs := by
+/-- every connection class of the source has a constructor that provably passes `conn_data` on to
+`_HttpConnBase.__init__`, which takes `parent_conn.conn_impl` (re-decided whenever the source changes) -/
+theorem constructors_share : ∀ kc, kc ∈ Gen.C16.wrapKinds → kc.2 = true := by decide
+
+/-- **derived connections, every construction path**: whatever class the derived connection is built
+with, it refers to the implementation object of the connection it wraps; no implementation object
+(no counter) is created, nothing else changes. -/
+theorem derived_shares (w w' : World) (c c' : Nat) (cls : List Char) (auth : Option (List Char))
+    (h : w.wrap Gen.C16.cfg c cls auth = .ok (w', c')) :
+    ∃ cn cn', w.conns[c]? = some cn ∧ w'.conns[c]? = some cn ∧ w'.conns[c']? = some cn' ∧
+      cn'.impl = cn.impl ∧ w'.impls = w.impls ∧ w'.dicts = w.dicts := by
   unfold World.wrap at h
   split at h
-  · rename_i i hi
+  · rename_i cn hcn _
     simp only [Except.ok.injEq, Prod.mk.injEq] at h
     obtain ⟨hw, hc⟩ := h
     subst hw hc
     have hlt : c < w.conns.length := by
       apply Classical.byContradiction
       intro hge
-      rw [List.getElem?_eq_none (by omega)] at hi; cases hi
-    unfold World.request
-    simp only [List.getElem?_append_right (Nat.le_refl _), Nat.sub_self,
-      List.getElem?_append_left hlt, hi]
-    simp
+      rw [List.getElem?_eq_none (by omega)] at hcn; cases hcn
+    exact ⟨cn, { impl := cn.impl, auths := auth.toList ++ cn.auths }, hcn,
+      by simp [List.getElem?_append_left hlt, hcn], by simp, rfl, rfl, rfl⟩
+  · rename_i cn _ hk
+    obtain ⟨k', hk'⟩ := lookup_mem _ _ _ hk
+    have := constructors_share _ hk'
+    cases this
   · cases h
 
 /-- the generated program is short enough for one drain turn -/
 theorem program_fuel : Gen.C16.reqIdProgram.length ≤ drainRun := by decide
 
-/-- **a request without an id of its own** on a connection whose ids are enabled: the implementation
-shared by the family advances its counter by exactly one and the request gets the header
+/-- **a dict without an id** on a connection whose ids are enabled (the id branch): the implementation
+shared by the family advances its counter by exactly one and the dict gets the header
 `Gen.C16.hdrName` with the rendering of the old counter value (so, by `format_injective`, successive
 requests through any connections of the family carry different ids). -/
-theorem request_auto (w : World) (c i n : Nat) (im : Impl) (hs : Headers)
-    (hc : w.conns[c]? = some i) (hi : w.impls[i]? = some im) (hn : im.ctr = some n)
+theorem request_auto (w : World) (i n : Nat) (im : Impl) (hs : Headers)
+    (hn : im.ctr = some n)
     (hno : hs.any (fun kv => Gen.C16.hdrTest.holds kv.1) = false) :
-    w.request Gen.C16.cfg c hs =
+    w.idBranch Gen.C16.cfg i im hs =
       .ok ({ w with impls := setImpl w.impls i { im with ctr := some (n + 1) } },
            setHeader hs Gen.C16.hdrName (render im.cp Gen.C16.idFormat n)) := by
-  unfold World.request
-  simp only [hc, hi, hn]
+  unfold World.idBranch
+  simp only [hn]
   have : hs.any (fun kv => Gen.C16.cfg.test.holds kv.1) = false := hno
   simp only [this]
   have hg : genSeq Gen.C16.cfg.prog n = .ok (n, n + 1) := genSeq_ok _ program_ok program_fuel n
@@ -337,6 +344,103 @@ theorem test_covers : TestCovers Gen.C16.cfg := by
   rw [header_test_ok]
   simp [HdrTest.holds, h1, h2]
 
+/-- `RequestArguments` works on its own copy of the caller's headers (re-decided when the source changes) -/
+theorem hdr_init_ok : Gen.C16.hdrInit = .copy := by decide
+
+/-- **the whole of `do_request` as far as headers go**: a successful request is: read the caller's
+dict, let the authenticating adapters add `Authorization` (which neither supplies nor hides an id),
+run the id branch, add the content type (which does not change the id that is sent) — and **the
+caller's dict objects are exactly what they were** (the request never writes to a caller's object, so
+nothing is left over for the next request that is made with the same dict). -/
+theorem request_spec (w w' : World) (c : Nat) (cn : Conn) (im : Impl) (src : HdrSrc) (hasData : Bool)
+    (hs' : Headers) (hc : w.conns[c]? = some cn) (hi : w.impls[cn.impl]? = some im)
+    (h : w.request Gen.C16.cfg c src hasData = .ok (w', hs')) :
+    ∃ hs0 hs1 hs2, src.read w = some hs0 ∧ applyAuths cn.auths hs0 = some hs1 ∧
+      w.idBranch Gen.C16.cfg cn.impl im hs1 = .ok (w', hs2) ∧
+      hs1.any (fun kv => Gen.C16.hdrTest.holds kv.1) = hs0.any (fun kv => Gen.C16.hdrTest.holds kv.1) ∧
+      sentId Gen.C16.hdrName hs1 = sentId Gen.C16.hdrName hs0 ∧
+      sentId Gen.C16.hdrName hs' = sentId Gen.C16.hdrName hs2 ∧
+      w'.dicts = w.dicts := by
+  unfold World.request at h
+  simp only [hc, hi] at h
+  split at h
+  · cases h
+  rename_i hs0 hread
+  split at h
+  · cases h
+  rename_i hs1 hauth
+  split at h
+  · cases h
+  rename_i w1 hs2 hid
+  simp only [Except.ok.injEq, Prod.mk.injEq] at h
+  obtain ⟨hw, hh⟩ := h
+  have hwb : writeBack Gen.C16.cfg w1 src hs0 (addContentType hasData hs2) = w1 := by
+    unfold writeBack
+    have : Gen.C16.cfg.init = .copy := hdr_init_ok
+    rw [this]
+  rw [hwb] at hw
+  subst hw hh
+  have hk := applyAuths_keeps (fun n => Gen.C16.hdrTest.holds n) Gen.C16.hdrName (by decide) (by decide)
+    cn.auths hs0 hs1 hauth
+  have hd : w1.dicts = w.dicts := by
+    unfold World.idBranch at hid
+    split at hid
+    · cases hid; rfl
+    · split at hid
+      · cases hid; rfl
+      · split at hid
+        · cases hid
+        · cases hid; rfl
+  exact ⟨hs0, hs1, hs2, hread, hauth, hid, hk.1, hk.2,
+    addContentType_sent Gen.C16.hdrName (by decide) hasData hs2, hd⟩
+
+/-- **sequential request, end to end, caller brought an id** (any capitalisation, in a dict built for
+the call or in a dict the caller keeps): no counter moves, no caller object changes, and the value sent
+is the caller's. -/
+theorem request_caller_id (w w' : World) (c : Nat) (cn : Conn) (im : Impl) (src : HdrSrc) (hasData : Bool)
+    (hs0 hs' : Headers) (name v : List Char)
+    (hc : w.conns[c]? = some cn) (hi : w.impls[cn.impl]? = some im) (hread : src.read w = some hs0)
+    (hmem : (name, v) ∈ hs0) (hname : name.map lowerAscii = "x-request-id".toList)
+    (h : w.request Gen.C16.cfg c src hasData = .ok (w', hs')) :
+    w' = w ∧ sentId Gen.C16.hdrName hs' = sentId Gen.C16.hdrName hs0 := by
+  obtain ⟨a0, a1, a2, r0, _, rid, rany, rs1, rs2, _⟩ := request_spec w w' c cn im src hasData hs' hc hi h
+  rw [hread] at r0; cases r0
+  have hany0 : hs0.any (fun kv => Gen.C16.hdrTest.holds kv.1) = true := by
+    apply List.any_eq_true.mpr
+    refine ⟨(name, v), hmem, ?_⟩
+    show Gen.C16.hdrTest.holds name = true
+    rw [header_test_ok]; simp [HdrTest.holds, hname]
+  rw [← rany] at hany0
+  unfold World.idBranch at rid
+  have hany1 : a1.any (fun kv => Gen.C16.cfg.test.holds kv.1) = true := hany0
+  cases hctr : im.ctr with
+  | none => simp [hctr] at rid; obtain ⟨e1, e2⟩ := rid; subst e1 e2; exact ⟨rfl, by rw [rs2, rs1]⟩
+  | some n => simp [hctr, hany1] at rid; obtain ⟨e1, e2⟩ := rid; subst e1 e2; exact ⟨rfl, by rw [rs2, rs1]⟩
+
+/-- **sequential request, end to end, no id from the caller**, ids enabled: the family's counter goes
+from `n` to `n + 1`, what is sent under the id header is the rendering of `n`, every caller dict is
+what it was. -/
+theorem request_auto_sent (w w' : World) (c n : Nat) (cn : Conn) (im : Impl) (src : HdrSrc) (hasData : Bool)
+    (hs0 hs' : Headers)
+    (hc : w.conns[c]? = some cn) (hi : w.impls[cn.impl]? = some im) (hread : src.read w = some hs0)
+    (hn : im.ctr = some n) (hno : hs0.any (fun kv => Gen.C16.hdrTest.holds kv.1) = false)
+    (h : w.request Gen.C16.cfg c src hasData = .ok (w', hs')) :
+    w' = { w with impls := setImpl w.impls cn.impl { im with ctr := some (n + 1) } } ∧
+    sentId Gen.C16.hdrName hs' = some (render im.cp Gen.C16.idFormat n) := by
+  obtain ⟨a0, a1, a2, r0, _, rid, rany, _, rs2, _⟩ := request_spec w w' c cn im src hasData hs' hc hi h
+  rw [hread] at r0; cases r0
+  rw [← rany] at hno
+  rw [request_auto w cn.impl n im a1 hn hno] at rid
+  simp only [Except.ok.injEq, Prod.mk.injEq] at rid
+  obtain ⟨e1, e2⟩ := rid
+  refine ⟨e1.symm, ?_⟩
+  rw [rs2, ← e2]
+  apply sentId_setHeader
+  intro kv hkv hcap
+  have := test_covers kv.1 hcap
+  have hall := List.any_eq_false.mp hno kv hkv
+  exact hall this
+
 /-- **the property on what is sent, for every schedule**: concurrent requests of any number of
 threads through connections of one family, any run-length encoded schedule.  The ids sent under the
 id header by the requests that brought none (`ids`, thread by thread) are pairwise distinct, each is
@@ -350,6 +454,7 @@ theorem par_world (w w' : World) (i n : Nat) (im : Impl) (threads : List (List P
     ids.Nodup ∧
     (∀ x, x ∈ ids → ∃ v, n ≤ v ∧ v < n + ids.length ∧ x = some (render im.cp Gen.C16.idFormat v)) ∧
     w' = { w with impls := setImpl w.impls i { im with ctr := some (n + ids.length) } } ∧
+    w'.dicts = w.dicts ∧
     out.length = threads.length ∧
     (∀ to, to ∈ threads.zip out → keptOwn Gen.C16.cfg to.1 to.2) := by
   unfold World.par at h
@@ -392,7 +497,7 @@ theorem par_world (w w' : World) (i n : Nat) (im : Impl) (threads : List (List P
       simp [hlen']
     · rw [List.getElem?_eq_none (by simp; omega), List.getElem?_eq_none (by omega)]
   have hidlen : ids.length = c' - n := by rw [hids, List.length_map, hlen, p5]; omega
-  refine ⟨?_, ?_, ?_, a1, a3⟩
+  refine ⟨?_, ?_, ?_, by rw [← hw], a1, a3⟩
   · rw [hids]
     exact nodup_map_of_inj _
       (fun a b hab => format_injective im.cp a b (Option.some.inj hab)) _ hnd
@@ -416,5 +521,29 @@ example : (runPar Gen.C16.reqIdProgram 7 [2, 1] [(0, 1), (1, 1), (0, 2), (1, 100
 example : render "ab12".toList Gen.C16.idFormat 123456 ≠ render "ab12".toList Gen.C16.idFormat 3456 := by
   decide +kernel
 example : HdrTest.holds Gen.C16.hdrTest "X-REQUEST-id".toList = true := by decide +kernel
+
+/-- a small world: one connection with ids, a token-authenticated connection derived from it, a dict the
+caller keeps; two requests with that dict through the two connections, then one with the caller's id -/
+def demoWorld : Except Err (World × List (Option (List Char))) :=
+  let (w0, _) := World.empty.newImpl "ab12".toList true
+  match w0.wrap Gen.C16.cfg 0 "TokenAuthConn".toList (some "Bearer tok".toList) with
+  | .error e => .error e
+  | .ok (w1, _) =>
+    let (w2, _) := w1.newDict [("Accept".toList, "*/*".toList)]
+    match w2.request Gen.C16.cfg 1 (.ref 0) true with
+    | .error e => .error e
+    | .ok (w3, h1) =>
+      match w3.request Gen.C16.cfg 0 (.ref 0) false with
+      | .error e => .error e
+      | .ok (w4, h2) =>
+        match w4.request Gen.C16.cfg 1 (.lit [("x-REQUEST-id".toList, "Zmine".toList)]) false with
+        | .error e => .error e
+        | .ok (w5, h3) => .ok (w5, [sentId Gen.C16.hdrName h1, sentId Gen.C16.hdrName h2, sentId Gen.C16.hdrName h3])
+
+example : (match demoWorld with
+    | .ok (w, sent) => w.dicts == [[("Accept".toList, "*/*".toList)]] &&
+        sent == [some (render "ab12".toList Gen.C16.idFormat 0), some (render "ab12".toList Gen.C16.idFormat 1),
+                 some "Zmine".toList] && w.impls.map (·.ctr) == [some 2]
+    | .error _ => false) = true := by decide +kernel
 
 end C16
